@@ -29,7 +29,7 @@ fn c41_literal_successor_within_year() {
     assert!(date_to_days_since_epoch(y2 as i32, m2, d2) == date_to_days_since_epoch(y as i32, m, d) + 1);
 }
 
-//@ props=C41 kind=bounded bound="years 1838..=2101 (covers the century rules at 1900, 2000, 2100 on both sides of the epoch); all years: Verus unit literal_year_loop" timeout=900
+//@ props=C41 kind=bounded bound="years 1838..=2101 (covers the century rules at 1900, 2000, 2100 on both sides of the epoch); all years: Verus unit literal_year_loop" timeout=3000 tier=manual
 /// Kani twin of the Verus unit on a window of years: for every (concrete) year of 1838..=2101 the step
 /// date_to_days_since_epoch(y+1,1,1) - date_to_days_since_epoch(y,1,1) is the year's length by the
 /// 4/100/400 rule, the anchor is 0, and inside the years 1900, 1971, 1972, 2000 and 2100 the month/day
